@@ -68,26 +68,40 @@ theorem req_subset (cfg : Cfg) (s : St) (m : Msg) (hq : s.fastq = []) (ws : List
 
 example : Out.capReq [sEcho, sLabeled, sSasl] ∈ (step exCfg exS0 exLs).fast ∧ exS0.fastq = [] := by decide
 
-/-- `REQUEST_CAPABILITIES` (a class attribute the code mutates) never holds anything but the extracted
-set and `sasl`, in any reachable state. -/
-theorem wanted_bounded (cfg : Cfg) (base s : St) (hb : ∀ c ∈ base.wanted, c ∈ Gen.Conn.requestCapabilities ∨ c = sSasl)
+/-- The object's own `REQUEST_CAPABILITIES` never holds anything but the extracted class-level set and
+`sasl`, in any reachable state — whatever the state the history started from. -/
+theorem wanted_bounded (cfg : Cfg) (base s : St)
     (r : Reach cfg base s) : ∀ c ∈ s.wanted, c ∈ Gen.Conn.requestCapabilities ∨ c = sSasl := by
   have key : ∀ t : St, (α t).wantedOk = true ↔ ∀ c ∈ t.wanted, c ∈ Gen.Conn.requestCapabilities ∨ c = sSasl := by
     intro t; simp [α, isWanted, List.all_eq_true]
   rw [← key]
-  have hbase : (α base).wantedOk = true := (key base).mpr hb
   induction r with
   | start =>
     show (α (drain (initSt cfg base))).wantedOk = true
-    rw [α_drain, α_initSt]; exact hbase
+    rw [α_drain, α_initSt]; rfl
   | op o _ ih =>
     cases o with
     | msg m =>
       show (α (drain (feedMsg cfg m _).st)).wantedOk = true
-      rw [α_drain]; exact (wantedOk_moves (ref_feedMsg m _)).trans ih
+      rw [α_drain]
+      have := wantedOk_moves (ref_feedMsg (cfg := cfg) m _) ih
+      exact this
     | reset =>
       show (α (drain (ircReset cfg _))).wantedOk = true
-      rw [α_drain, α_ircReset]; exact ih
+      rw [α_drain, α_ircReset]
+
+/-- `resetSasl` rebuilds the set from the class-level one: `sasl` is wanted exactly when this network's
+configuration leaves a usable mechanism — whatever an earlier connection (or another network) had. -/
+theorem wanted_rebuilt (cfg : Cfg) (s : St) :
+    (ircReset cfg s).wanted = Gen.Conn.requestCapabilities ++
+      (if (cfg.mechanisms.filter (mechAvailable cfg)).isEmpty then [] else [sSasl]) := by
+  have hw : ∀ t : St, (queueConnectMessages cfg t).wanted = t.wanted := by
+    intro t; unfold queueConnectMessages transition; simp only; split <;> rfl
+  unfold ircReset
+  rw [hw]
+  unfold clearForReset resetSasl
+  simp only
+  split <;> simp
 
 /-! ### echo_needs_label -/
 
@@ -233,7 +247,7 @@ theorem cap_end_outstanding_witness :
 /-- the CAP / SASL / FSM / nick fields and the queues -/
 def visible (s : St) :=
   (s.fsm, s.ls, s.req, s.ack, s.nak, s.saslNext, s.saslCur, s.saslAuth, s.dec, s.nick, s.altNicks, s.tried,
-   s.afterConnect, s.fastq, s.slowq, s.endCount, s.saslAcked)
+   s.afterConnect, s.fastq, s.slowq, s.endCount, s.saslAcked, s.saslSent, s.scramStep, s.wanted)
 
 /-- After `Irc.reset()` — from any state whatsoever — every CAP/SASL/FSM/nick field and both queues are
 exactly what a newly constructed `Irc` has. -/
@@ -382,7 +396,7 @@ aborted deliberately (`driver.reconnect`), or the conformant server still owes i
 never waits for something a conformant server will not send. -/
 theorem progress (cfg : Cfg) (hd : cfg.realDriver = false) (base : St) (v3 : Bool) (s : St) (v : View)
     (r : PReach cfg base v3 s v) : s.afterConnect = true ∨ v.aborted = true ∨ Owes v := by
-  rcases inv_preach hd r with h | h | ⟨_, hp⟩
+  rcases inv_preach hd r with h | h | ⟨_, _, hp⟩
   · exact .inr (.inl h)
   · exact .inl h
   · exact .inr (.inr (owes_of_phase hp))
@@ -404,21 +418,33 @@ theorem no_stuck_state (cfg : Cfg) (hd : cfg.realDriver = false) (base : St) (v3
     · have := hw hc; omega
 
 /-- The part of "CAP END only when no request is outstanding" that does hold (the full statement is
-refuted by `cap_end_outstanding_witness`): against a conformant server — which sends neither CAP NEW nor
-CAP DEL during the registration and answers each CAP REQ by one ACK or NAK — once CAP END has been sent
-every capability the bot requested has been ACKed or NAKed, in every joint history. -/
+refuted by `cap_end_outstanding_witness`): against a conformant server — split ACK / NAK answers, CAP NEW and
+CAP DEL during the negotiation included — once CAP END has been sent every capability the bot requested has
+been ACKed or NAKed, in every joint history, unless a CAP NEW arrived after the bot asked for a SASL mechanism
+(`lateNew`: the one situation in which the code ends the negotiation without looking at its requests). -/
 theorem cap_end_nothing_outstanding_partial (cfg : Cfg) (hd : cfg.realDriver = false) (base : St) (v3 : Bool) (s : St)
     (v : View) (r : PReach cfg base v3 s v) (hna : v.aborted = false) (hac : s.afterConnect = false)
-    (he : v.ended = true) : ∀ c ∈ s.req, c ∈ s.ack ∨ c ∈ s.nak := by
-  rcases inv_preach hd r with h | h | ⟨_, hp⟩
+    (he : v.ended = true) (hnew : v.lateNew = false) : ∀ c ∈ s.req, c ∈ s.ack ∨ c ∈ s.nak := by
+  rcases inv_preach hd r with h | h | ⟨_, _, hp⟩
   · rw [hna] at h; cases h
   · rw [hac] at h; cases h
   · cases hp with
-    | neg _ he' _ _ _ _ _ _ _ _ _ _ => rw [he] at he'; cases he'
-    | sasl _ he' _ _ _ _ _ _ _ _ => rw [he] at he'; cases he'
-    | waiting _ _ _ _ _ _ hres => exact hres
+    | neg _ he' _ _ _ _ _ _ _ _ => rw [he] at he'; cases he'
+    | sasl _ he' _ _ _ _ _ _ _ _ _ _ => rw [he] at he'; cases he'
+    | waiting _ _ _ _ _ _ hres => exact hres hnew
     | nocap _ _ _ _ hreq => intro c hc; rw [show s.req = (bot s).req from rfl, hreq] at hc; cases hc
-    | motd _ _ _ _ _ hres => exact hres
+    | motd _ _ _ _ _ hres => exact hres hnew
+
+/-- What holds in every case, a late CAP NEW included: nothing the bot requested is ever lost track of — it is
+acknowledged, refused, or part of a CAP REQ line the conformant server has yet to answer; and every such line
+is non-empty, so the server does owe that answer. -/
+theorem cap_requests_accounted (cfg : Cfg) (hd : cfg.realDriver = false) (base : St) (v3 : Bool) (s : St)
+    (v : View) (r : PReach cfg base v3 s v) (hna : v.aborted = false) (hac : s.afterConnect = false) :
+    (∀ c ∈ s.req, c ∈ s.ack ∨ c ∈ s.nak ∨ c ∈ v.reqs.flatten) ∧ (∀ l ∈ v.reqs, l ≠ []) := by
+  rcases inv_preach hd r with h | h | ⟨_, hc, _⟩
+  · rw [hna] at h; cases h
+  · rw [hac] at h; cases h
+  · exact ⟨hc.acc, hc.ne⟩
 
 /-- `authenticate_generator` for every text: full-size lines followed by one final line that is shorter
 than AUTHENTICATE_CHUNK_SIZE, or `+` when nothing is left; concatenated (terminator dropped) they spell the
@@ -430,7 +456,7 @@ theorem chunks_terminate (a : Str) :
 
 /-- every answer `sendSaslString` queues is complete: credentials lines only, the last one not full-size -/
 theorem sasl_answer_complete (bytes : List Nat) (s : St) :
-    ∃ outs, Answer outs ∧ sendSaslString bytes s = { s with fastq := s.fastq ++ outs } :=
+    ∃ outs, Answer outs ∧ sendSaslString bytes s = { s with fastq := s.fastq ++ outs, saslSent := true } :=
   sendSasl_sends bytes s
 
 example : authChunks 4 "abcdefgh".toList = ["abcd".toList, "efgh".toList, sPlus] := by decide
@@ -444,11 +470,11 @@ def jBot : Str := ['b','o','t']
 def jS0 := start exCfg {}
 def jV0 : View := seeStep { v3 := true } jS0
 def jS1 := step exCfg jS0.st ⟨sCAP, [exStar, sLS, sSasl], jn⟩
-def jV1 : View := seeStep { jV0 with lsOwed := false } jS1
+def jV1 : View := seeStep { jV0 with lsOwed := false, avail := jV0.avail ++ lsKeys sSasl } jS1
 def jS2 := step exCfg jS1.st ⟨sCAP, [exStar, sACK, sSasl], jn⟩
-def jV2 : View := seeStep { jV1 with reqs := [] } jS2
+def jV2 : View := seeStep { jV1 with reqs := reqsAfter (splitWs sSasl) [sSasl] [] } jS2
 def jS3 := step exCfg jS2.st ⟨sAUTHENTICATE, [sPlus], jn⟩
-def jV3 : View := seeStep { jV2 with auth := .none } jS3
+def jV3 : View := seeStep { jV2 with auth := .none, rounds := jV2.rounds + 1 } jS3
 def jS4 := step exCfg jS3.st ⟨num '9' '0' '3', [], jn⟩
 def jV4 : View := seeStep { jV3 with auth := .none } jS4
 def jS5 := step exCfg jS4.st ⟨welcomeNumeric 1, jBot :: [], jn⟩
@@ -468,8 +494,8 @@ def jV11 : View := seeStep { jV10 with stage := 7 } jS11
 
 theorem jR4 : PReach exCfg {} true jS4.st jV4 :=
   .step (.step (.step (.step .start (by decide) (.lsFinal jV0 exStar sSasl jn (by decide) (by decide)))
-    (by decide) (.ack jV1 exStar sSasl jn [sSasl] [] (by decide) (by decide) (by decide)))
-    (by decide) (.authContinue jV2 sPlus jn (by decide) (by decide) (.inl rfl)))
+    (by decide) (.ack jV1 exStar sSasl jn [sSasl] [] (by decide) (by decide) (by decide) (by decide) (by decide)))
+    (by decide) (.authContinue jV2 sPlus jn (by decide) (by decide) (by decide) (.inl rfl)))
     (by decide) (.authOk jV3 [] jn (by decide) (by decide))
 
 theorem jR11 : PReach exCfg {} true jS11.st jV11 :=
@@ -488,5 +514,189 @@ example : jS11.st.afterConnect = true ∧ jV11.aborted = false ∧ jS4.st.fsm = 
 
 /-- and `cap_end_nothing_outstanding_partial` is not vacuous: after CAP END (`jV4.ended`), not aborted, not yet connected -/
 example : jV4.ended = true ∧ jV4.aborted = false ∧ jS4.st.afterConnect = false ∧ jS4.st.req = [sSasl] := by decide
+
+/-! ### JOIN (Owner.do376 / do377 / do422) only after the end of the MOTD was handled
+
+`callbacks` models Owner's handler of 376 / 377 / 422: it runs after `Irc.do376` returned normally and
+queues the configured JOINs on the normal queue. -/
+
+theorem ev_ircReset (cfg : Cfg) (t : St) : (ircReset cfg t).ev = t.ev := by
+  unfold ircReset queueConnectMessages transition clearForReset resetSasl
+  simp only; split <;> rfl
+
+theorem drvReconnect_wait_ev (cfg : Cfg) (srv : Option Server) (s : St) : (drvReconnect cfg true srv s).ev ≠ [] := by
+  unfold drvReconnect
+  split
+  · unfold realReconnect
+    simp only [if_true, drvSchedule, ev_ircReset]
+    unfold drvDisconnect
+    split <;> simp [event]
+  · simp [event]
+
+/-- Irc.do376: it completes (`afterConnect`), or it drops the connection, or it raises and changes nothing -/
+theorem do376_result (cfg : Cfg) (s : St) :
+    ((do376 cfg s).exc = none ∧ ((do376 cfg s).st.afterConnect = true ∨ (do376 cfg s).st.ev ≠ [])) ∨
+    ((do376 cfg s).exc ≠ none ∧ (do376 cfg s).st = s) := by
+  unfold do376
+  by_cases hm : saslMissing cfg s = true
+  · rw [if_pos hm]; exact .inl ⟨rfl, .inr (drvReconnect_wait_ev cfg none s)⟩
+  · rw [if_neg hm]
+    unfold transition
+    simp only
+    by_cases hg : Gen.Conn.guardEndMotd.contains s.fsm = true
+    · simp only [hg, if_true, bind_ok]; exact .inl ⟨rfl, .inl rfl⟩
+    · simp only [hg]; exact .inr ⟨by simp [raise, R.bind], rfl⟩
+
+theorem nickSetter_slowq (m : Msg) (s : St) : (nickSetter m s).st.slowq = s.slowq := by
+  unfold nickSetter; split
+  · split <;> rfl
+  · rfl
+
+/-- The JOINs are put on the queue only by the step that handles 376 / 377 / 422, and only when `Irc.do376`
+completed in that step (`afterConnect` is set) or dropped the connection in it (a driver call is recorded: with
+the real driver that reconnect has reset the Irc object and closed the socket, see `join_only_after_motd_real`)
+— for every state without a waiting JOIN, every configuration and every server message. -/
+theorem join_needs_motd_end (cfg : Cfg) (s : St) (m : Msg) (hq : Out.join ∉ s.slowq)
+    (h : Out.join ∈ (step cfg s m).slow) :
+    dispatch m = .n376 ∧ ((step cfg s m).st.afterConnect = true ∨ (step cfg s m).events ≠ []) := by
+  have hslow : (step cfg s m).slow = (feedMsg cfg m s).st.slowq := rfl
+  have hj : (α (feedMsg cfg m s).st).joinQ = true := by
+    rw [hslow] at h; simpa [α] using h
+  by_cases hd : dispatch m = .n376
+  · refine ⟨hd, ?_⟩
+    show (feedMsg cfg m s).st.afterConnect = true ∨ (feedMsg cfg m s).st.ev ≠ []
+    rw [hslow] at h
+    unfold feedMsg R.bind at h ⊢
+    cases hn : (nickSetter m s).exc with
+    | some e =>
+      simp only [hn] at h
+      rw [nickSetter_slowq] at h; exact absurd h hq
+    | none =>
+      simp only [hn] at h ⊢
+      have hrun : runHandler cfg m (nickSetter m s).st = do376 cfg (nickSetter m s).st := by
+        unfold runHandler; rw [hd]
+      rw [hrun] at h ⊢
+      rcases do376_result cfg (nickSetter m s).st with ⟨he, hres⟩ | ⟨he, hst⟩
+      · simp only [he] at h ⊢
+        have h1 : (callbacks cfg m (do376 cfg (nickSetter m s).st).st).afterConnect = (do376 cfg (nickSetter m s).st).st.afterConnect := by
+          unfold callbacks; split <;> rfl
+        have h2 : (callbacks cfg m (do376 cfg (nickSetter m s).st).st).ev = (do376 cfg (nickSetter m s).st).st.ev := by
+          unfold callbacks; split <;> rfl
+        simp only [ok, h1, h2]; exact hres
+      · cases hx : (do376 cfg (nickSetter m s).st).exc with
+        | none => exact absurd hx he
+        | some e =>
+          simp only [hx] at h
+          rw [hst, nickSetter_slowq] at h; exact absurd h hq
+  · exfalso
+    have hk : handlerKinds (dispatch m) .joinPerm = false := by revert hd; cases dispatch m <;> simp [handlerKinds]
+    have := noJoin_moves hk (ref_feedMsg (cfg := cfg) m s) hj
+    exact hq (by simpa [α] using this)
+
+/-- Along every history of the real SocketDriver: the ghost flag `joinBad` — set by `_sendIfMsgs` when it
+writes a JOIN to a socket while `afterConnect` is not set — is never raised.  (A JOIN queued by Owner after
+`Irc.do376` dropped the connection waits on a closed connection and is discarded by the reset that precedes
+the next connect.) -/
+theorem join_only_after_motd_real (cfg : Cfg) (hr : cfg.realDriver = true) (base s : St) (r : DReach cfg base s) :
+    s.joinBad = base.joinBad := by
+  have h0 : JoinOk cfg base.joinBad (α (initSt cfg base)) := by
+    rw [α_initSt]
+    exact ⟨⟨fun _ hq => by simp [freshAbs] at hq, connectKinds_noSide cfg⟩, rfl⟩
+  exact ((dInv_join cfg hr base.joinBad).dreach hr h0 r).2
+
+/-- what the flag means: one `_sendIfMsgs` raises it exactly when the driver is connected, a JOIN is among the
+messages it writes, and `afterConnect` is not set -/
+theorem joinBad_flush (s : St) :
+    (flush s).joinBad = (s.joinBad || (s.drv.connected && ((s.fastq ++ s.slowq).contains .join && !s.afterConnect))) := by
+  unfold flush
+  split
+  · rename_i hc; simp [hc]
+  · rename_i hc
+    have : s.drv.connected = false := by simpa using hc
+    simp [this]
+
+/-! ### STS along real-driver histories: no downgrade -/
+
+/-- Along every history of the real SocketDriver (started with a driver that is not connected yet): whenever the
+driver is connected to a host for which an STS policy is stored, the connection is one the bot considers
+verified TLS — forced by the policy (TLS with certificate verification, `C09.forced_tls_verified`), or `ssl`
+with a certificate validation of the operator's own.  In particular a policy stored on a verified connection is
+never followed by an unverified connection to that host while it is stored. -/
+theorem sts_no_downgrade_real (cfg : Cfg) (hr : cfg.realDriver = true) (base s : St) (hb : base.drv.connected = false)
+    (r : DReach cfg base s) (hc : s.drv.connected = true)
+    (hp : (dictGet s.db.policies s.drv.current.host).isSome = true) : secureConn cfg s = true := by
+  have h0 : StsInv cfg (α (initSt cfg base)) := by
+    rw [α_initSt]; intro hc'; simp [freshAbs, α, hb] at hc'
+  have := (dInv_sts cfg).dreach hr h0 r hc hp
+  simpa [aSecure, secureConn, α] using this
+
+/-! ### non-vacuity of the widened `progress`: split answers, CAP NEW and CAP DEL during the negotiation -/
+
+def sBatch : Str := ['b','a','t','c','h']
+def sChghost : Str := ['c','h','g','h','o','s','t']
+def sSetname : Str := ['s','e','t','n','a','m','e']
+/-- a configuration without SASL credentials -/
+def kCfg : Cfg := { exCfg with mechanisms := [] }
+def kS0 := start kCfg {}
+def kV0 : View := seeStep { v3 := true } kS0
+/-- `CAP * LS :batch chghost` → `CAP REQ :batch chghost` -/
+def kLs : Str := sBatch ++ [' '] ++ sChghost
+def kS1 := step kCfg kS0.st ⟨sCAP, [exStar, sLS, kLs], jn⟩
+def kV1 : View := seeStep { kV0 with lsOwed := false, avail := kV0.avail ++ lsKeys kLs } kS1
+/-- `CAP * ACK :batch` — the first line of a split answer -/
+def kS2 := step kCfg kS1.st ⟨sCAP, [exStar, sACK, sBatch], jn⟩
+def kV2 : View := seeStep { kV1 with reqs := reqsAfter (splitWs sBatch) [sBatch, sChghost] [] } kS2
+/-- `CAP * NEW :setname` → `CAP REQ :chghost setname` -/
+def kS3 := step kCfg kS2.st ⟨sCAP, [exStar, sNEW, sSetname], jn⟩
+def kV3 : View := seeStep { kV2 with avail := kV2.avail ++ lsKeys sSetname, lateNew := kV2.lateNew || kV2.auth.owed || kV2.ended } kS3
+/-- `CAP * ACK :chghost` — the rest of the split answer -/
+def kS4 := step kCfg kS3.st ⟨sCAP, [exStar, sACK, sChghost], jn⟩
+def kV4 : View := seeStep { kV3 with reqs := reqsAfter (splitWs sChghost) [sChghost] [[sChghost, sSetname]] } kS4
+/-- `CAP * DEL :batch` -/
+def kS5 := step kCfg kS4.st ⟨sCAP, [exStar, sDEL, sBatch], jn⟩
+def kV5 : View := seeStep { kV4 with avail := kV4.avail.filter (fun c => !(delKeys sBatch).contains c) } kS5
+/-- `CAP * ACK :chghost setname` → `CAP END` -/
+def kAck2 : Str := sChghost ++ [' '] ++ sSetname
+def kS6 := step kCfg kS5.st ⟨sCAP, [exStar, sACK, kAck2], jn⟩
+def kV6 : View := seeStep { kV5 with reqs := reqsAfter (splitWs kAck2) [sChghost, sSetname] [] } kS6
+
+theorem kR6 : PReach kCfg {} true kS6.st kV6 :=
+  .step (.step (.step (.step (.step (.step .start
+    (by decide) (.lsFinal kV0 exStar kLs jn (by decide) (by decide)))
+    (by decide) (.ack kV1 exStar sBatch jn [sBatch, sChghost] [] (by decide) (by decide) (by decide) (by decide) (by decide)))
+    (by decide) (.capNew kV2 exStar sSetname jn (by decide) (by decide) (by decide)))
+    (by decide) (.ack kV3 exStar sChghost jn [sChghost] [[sChghost, sSetname]] (by decide) (by decide) (by decide) (by decide) (by decide)))
+    (by decide) (.capDel kV4 exStar sBatch jn (by decide) (by decide) (by decide)))
+    (by decide) (.ack kV5 exStar kAck2 jn [sChghost, sSetname] [] (by decide) (by decide) (by decide) (by decide) (by decide))
+
+/-- the split answer leaves the rest of the request owed; the CAP NEW makes the bot ask again; after the CAP DEL
+`batch` counts as refused; the last ACK ends the negotiation with everything answered -/
+example : kV2.reqs = [[sChghost]] ∧ kV3.reqs = [[sChghost], [sChghost, sSetname]] ∧ sBatch ∈ kS5.st.nak ∧
+    Out.capEnd ∈ kS6.fast ∧ kV6.ended = true ∧ kV6.lateNew = false ∧ kV6.aborted = false ∧ kS6.st.afterConnect = false := by
+  decide
+
+/-! ### SCRAM: the step machine with the library calls as parameters -/
+
+def sScram256 : Str := "scram-sha-256".toList
+def scCfg : Cfg := { exCfg with mechanisms := [sScram256, sPlain], hasScram := true, scramHashes := ["SHA-256".toList],
+                                scramFirst := utf8 "n,,n=u,r=c".toList, scramFinal := some (utf8 "c=biws,r=cs,p=x".toList) }
+def scAck : Msg := ⟨sCAP, [exStar, sACK, sSasl], jn⟩
+def scChallenge : Msg := ⟨sAUTHENTICATE, ["cj1jcyxzPXMsaT00MDk2".toList], jn⟩
+def scS2 : St := (step scCfg (step scCfg (start scCfg {}).st exLsSasl).st scAck).st
+def scS3 := step scCfg scS2 exAuth
+def scS4 := step scCfg scS3.st scChallenge
+def scS5 := step scCfg scS4.st scChallenge
+/-- client-first, client-final, `+`: one step per server message; then 903 is honoured -/
+example : scS2.saslCur = some sScram256 ∧ scS3.st.scramStep = 1 ∧ scS4.st.scramStep = 2 ∧ scS5.st.scramStep = 3 ∧
+    scS5.fast = [.authPayload sPlus] ∧ (step scCfg scS5.st ex903).st.saslAuth = true := by decide
+/-- an unsupported hash, a rejected challenge and a bad server signature each send `AUTHENTICATE *` and nothing
+else; the failure numeric that follows starts the next mechanism with a fresh SCRAM state -/
+example :
+    (step { scCfg with scramHashes := [] } scS2 exAuth).fast = [.authAbort] ∧
+    (step { scCfg with scramFinal := none } scS3.st scChallenge).fast = [.authAbort] ∧
+    (step { scCfg with scramFinish := 1 } scS4.st scChallenge).fast = [.authAbort] ∧
+    (step scCfg (step { scCfg with scramFinish := 1 } scS4.st scChallenge).st ⟨num '9' '0' '6', [], jn⟩).fast = [.authMech "PLAIN".toList] ∧
+    (step scCfg (step { scCfg with scramFinish := 1 } scS4.st scChallenge).st ⟨num '9' '0' '6', [], jn⟩).st.scramStep = 0 := by
+  decide
 
 end C08
